@@ -1,4 +1,6 @@
 import MesonModel.Quote.Model
+import MesonModel.Quote.Env
+import MesonModel.Quote.Gen
 import Driver.Proto
 /-
 Driver commands of area `quote` (property C03).
@@ -78,6 +80,76 @@ def showWrapped : Wrapped → String
 
 def zipAssoc (ks vs : String) : List (List Char × List Char) := (decList ks).zip (decList vs)
 
+
+/-! ### environment() objects -/
+
+def decListList (f : String) : List (List (List Char)) :=
+  if f.trimAscii.isEmpty then [] else (f.splitOn ";").map decList
+
+def parseKind (k : List Char) : EnvKind :=
+  if k = "append".toList then .append else if k = "prepend".toList then .prepend else .set
+
+/-- four parallel fields: kinds, names, separators (list codec) and values (`;`-separated lists) -/
+def decOps (kinds names seps vals : String) : List EnvOp :=
+  let ks := decList kinds
+  let ns := decList names
+  let ss := decList seps
+  let vs := decListList vals
+  let vs := vs ++ List.replicate (ks.length - vs.length) []
+  let ss := ss ++ List.replicate (ks.length - ss.length) []
+  (ks.zip (ns.zip (ss.zip vs))).map (fun q => ⟨parseKind q.1, q.2.1, q.2.2.2, q.2.2.1⟩)
+
+def showKind : EnvKind → List Char
+  | .set => "set".toList | .append => "append".toList | .prepend => "prepend".toList
+
+def showErr : Option EnvErr → List Char
+  | none => "ok".toList
+  | some .setUnset => "setUnset".toList | some .unsetSet => "unsetSet".toList
+  | some .appendUnset => "appendUnset".toList | some .prependUnset => "prependUnset".toList
+
+def sortStrs (l : List (List Char)) : List (List Char) :=
+  ((l.map String.ofList).toArray.qsort (· < ·)).toList.map String.toList
+
+/-- API calls: kinds `set`/`append`/`prepend`/`unset`, and `mbegin` … `mend` bracketing the calls that
+build the object handed to `merge` -/
+def runCalls (kinds names seps vals : String) : EnvVars × List (List Char) :=
+  let ks := decList kinds
+  let ns := decList names
+  let ss := decList seps ++ List.replicate ks.length []
+  let vs := decListList vals ++ List.replicate ks.length []
+  let calls := ks.zip (ns.zip (ss.zip vs))
+  let r := calls.foldl (fun (st : EnvVars × Option EnvVars × List (List Char)) q =>
+    let (outer, inner, errs) := st
+    let k := q.1
+    if k = "mbegin".toList then (outer, some {}, errs)
+    else if k = "mend".toList then
+      match inner with
+      | some o => ((outer.step (.merge o)).1, none, errs)
+      | none => (outer, none, errs)
+    else
+      let call : EnvCall :=
+        if k = "unset".toList then .unset q.2.1
+        else if k = "append".toList then .append q.2.1 q.2.2.2 q.2.2.1
+        else if k = "prepend".toList then .prepend q.2.1 q.2.2.2 q.2.2.1
+        else .set q.2.1 q.2.2.2 q.2.2.1
+      match inner with
+      | some o => let (o', e) := o.step call; (outer, some o', errs ++ [showErr e])
+      | none => let (o', e) := outer.step call; (o', none, errs ++ [showErr e])) (({} : EnvVars), none, [])
+  (r.1, r.2.2)
+
+def showEnvVars (e : EnvVars) : String :=
+  encList (e.ops.map (fun o => showKind o.kind)) ++ "/" ++ encList (e.ops.map (·.name)) ++ "/" ++
+  encList (e.ops.map (·.sep)) ++ "/" ++ ";".intercalate (e.ops.map (fun o => encList o.values)) ++ "/" ++
+  encList (sortStrs e.unset) ++ "/" ++ boolStr e.canUseEnv
+
+def showDict (d : Dict) : String := encList (d.map (·.1)) ++ ";" ++ encList (d.map (·.2))
+
+def dfltOf (f : String) : List Char → Option (List Char) :=
+  if f == "1" then (fun n => some ('$' :: n)) else noDflt
+
+def showGenErr : GenErr → String
+  | .outputIndex => "ERR:outputIndex" | .diverges => "ERR:diverges"
+
 def handle (cmd : String) (fs : List String) : String :=
   match cmd, fs with
   | "shq", [s] => encodeStr (shQuote (decodeStr s))
@@ -135,6 +207,33 @@ def handle (cmd : String) (fs : List String) : String :=
     | .usageError => "exit:2"
   | "enceq", [a, b] => boolStr (decide (reprList (decList a) = reprList (decList b)))
   | "testcmd", [w, p, a, e] => encList (testCmd (decList w) (decList p) (decList a) (decList e))
+  | "envcalls", [ks, ns, ss, vs] =>
+    let (e, errs) := runCalls ks ns ss vs
+    showEnvVars e ++ "/" ++ encList errs
+  | "envget", [ks, ns, ss, vs, un, bk, bv, d] =>
+    showDict (getEnv { ops := decOps ks ns ss vs, unset := decList un } (dfltOf d) (zipAssoc bk bv))
+  | "envtest", [hasSetup, sk, sn, ss, sv, su, tk, tn, ts, tv, tu, bk, bv] =>
+    let setup : Option EnvVars := if hasSetup == "1" then some { ops := decOps sk sn ss sv, unset := decList su } else none
+    showDict (deliverTest setup { ops := decOps tk tn ts tv, unset := decList tu } (zipAssoc bk bv))
+  | "envutil", [bk, bv, words] =>
+    match envUtility (zipAssoc bk bv) (decList words) with
+    | .ok (d, c) => "ok:" ++ showDict d ++ ";" ++ encList c
+    | .error .option => "ERR:option" | .error .emptyName => "ERR:emptyName" | .error .noUtility => "ERR:noUtility"
+  | "wrapenv", [flags, args, ks, ns, ss, vs, cap, feed] =>
+    let (e, _) := runCalls ks ns ss vs
+    let e := if flag flags 3 then e else { e with canUseEnv := false }
+    let r : ExeReq := {
+      extraPaths := flag flags 0, exeWrapper := flag flags 1, workdir := flag flags 2,
+      sepIsSpace := flag flags 4, forceSerialize := flag flags 5, haveEnvProgram := flag flags 6,
+      cmdArgs := decList args, capture := optField cap, feed := optField feed }
+    showWrapped (asMesonExeCmdline (r.ofEnv (some e)))
+  | "genargs", [infile, sole, priv, outs, dep, b2s, std, arglist, extra] =>
+    match genCommandArgs {
+                           infile := decodeStr infile, soleOutput := decodeStr sole, privDir := decodeStr priv,
+                           outfiles := decList outs, depfile := optField dep, buildToSrc := decodeStr b2s,
+                           sourceTargetDir := decodeStr std } (decList arglist) (decList extra) with
+    | .ok l => "ok:" ++ encList l
+    | .error e => showGenErr e
   | "nshesc", [s] => encodeStr (ninjaShellEscape (decodeStr s))
   | _, _ => "bad-op"
 
